@@ -218,8 +218,9 @@ def rule_info(ctx, r):
     import json as _json
     from ..symeval import Obj, PureInterp, Raised, Unsupported
     idx = ctx.index
-    T = Obj("target", name="T", inputs=["in1"], outputs={"o": "out1"}, spec="SPEC-T\nline2", options={"cores": 2})
-    D1, D2, X1 = Obj("target", name="D1"), Obj("target", name="D2"), Obj("target", name="X1")
+    from .evalhelpers import target_obj
+    T = target_obj(ctx, name="T", inputs=["in1"], outputs={"o": "out1"}, spec="SPEC-T\nline2", options={"cores": 2})
+    D1, D2, X1 = target_obj(ctx, name="D1"), target_obj(ctx, name="D2"), target_obj(ctx, name="X1")
     graph = Obj("graph", dependencies={T: [D1, D2]}, dependents={T: [X1]})
     pj = idx.func("gwf.plugins.info:print_json")
     captured = []
@@ -244,7 +245,7 @@ def rule_info(ctx, r):
     hooks = {"click.secho": lambda *a, **k: lines.append(a[0] if a else ""), "click.echo": lambda *a, **k: lines.append(a[0] if a else ""),
              "click.format_filename": lambda v, *a, **k: v}
     try:
-        T2 = Obj("target", name="T", inputs=["in1"], outputs=["out1"], spec="SPEC-T", options={})
+        T2 = target_obj(ctx, name="T", inputs=["in1"], outputs=["out1"], spec="SPEC-T", options={})
         PureInterp(ctx, hooks=hooks).call(pp, ([T2], Obj("graph", dependencies={T2: [D1]}, dependents={T2: [X1]})), {})
     except (Raised, Unsupported, Exception) as exc:
         lines = [f"<{exc}>"]
